@@ -12,17 +12,23 @@ from .report import Ctx
 
 
 class Seed:
-    def __init__(self, name, kind, module, old, new, rule=None, where=None, count=1):
+    def __init__(self, name, kind, module, old, new, rule=None, where=None, count=1, more=()):
+        """more: further (old, new) replacements in the same module, each applied exactly once"""
         assert kind in ("fault", "refactor")
         self.name, self.kind, self.module, self.old, self.new = name, kind, module, old, new
-        self.rule, self.where, self.count = rule, where, count
+        self.rule, self.where, self.count, self.more = rule, where, count, tuple(more)
 
 
 def _apply(repo, seed):
     src = repo.module(seed.module).source
     if src.count(seed.old) != seed.count:
         return None
-    return src.replace(seed.old, seed.new)
+    src = src.replace(seed.old, seed.new)
+    for o, n in seed.more:
+        if src.count(o) != 1:
+            return None
+        src = src.replace(o, n)
+    return src
 
 
 def _one(args):
